@@ -8,7 +8,8 @@ RULE = ("ACK histories emitted by the exhaustive TLC runs of TcpSenderMC (every 
         "on the real TCPPacketGenerator (scripted put(ack) calls, retransmission timers fired by letting time pass) and "
         "validated step by step from the logged pre-state; a scenario is non-trivial when it contains a third duplicate "
         "ACK, further duplicates, a new ACK that ends fast recovery, a new ACK after one or two duplicates, a Reno "
-        "congestion-avoidance ACK, a multi-segment ACK, a retransmission timeout (also inside fast recovery), a send "
+        "congestion-avoidance ACK, a multi-segment ACK, a retransmission timeout (also inside fast recovery, also backing off beyond "
+        "60 s), repeats of the latest ACK while nothing is outstanding, a send "
         "limited by the flow's buffered data, an application-limited flow (data handed over chunk by chunk while the sender "
         "sleeps: a timeout / third duplicate while it waits, a send right after data arrived, data meeting a closed window), "
         "or a CUBIC congestion-avoidance ACK (counted / growing); distinct = "
@@ -31,7 +32,7 @@ def from_history(ctx, h):
             ev.append({"op": "A", "dt": rng.choice([0, 1, 1, 2]), "k": e["k"], "rtt": e["rn"] * DEN // e["rd"],
                        "late": rng.choice([0, 0, 1])})
         elif e["op"] == "D":
-            ev.append({"op": "D", "dt": rng.choice([0, 0, 1]), "late": rng.choice([0, 0, 1])})
+            ev.append({"op": "D", "dt": rng.choice([0, 0, 1]), "late": rng.choice([0, 0, 1]), "idle": 1})
         else:
             ev.append({"op": "W", "dt": rng.choice([2, 3, 5]) * DEN})
     sc = {"cc": cfg["cc"], "cwnd": cfg["cw0"] * MSS, "ssthresh": min(cfg["ss0"] * MSS, 65535), "rtt0": DEN, "den": DEN,
@@ -63,8 +64,9 @@ def random_app_limited(ctx):
             ev.append({"op": "A", "dt": rng.choice([0, 1, gap // 2, gap, gap + 1]), "k": rng.choice([1, 1, 2, 3]),
                        "rtt": rng.choice([-1, 1, den // 2, den]), "late": rng.choice([0, 0, 1])})
         else:
+            idle = rng.choice([0, 1, 1])
             for _ in range(rng.choice([1, 2, 3, 3, 4, 5])):
-                ev.append({"op": "D", "dt": rng.choice([0, 0, 1, gap // 2]), "late": rng.choice([0, 0, 1])})
+                ev.append({"op": "D", "dt": rng.choice([0, 0, 1, gap // 2]), "late": rng.choice([0, 0, 1]), "idle": idle})
     return {"cc": "cubic" if cubic else "reno", "cwnd": rng.choice([1024, 1536, 2048, 2048, 4096, 8192]),
             "ssthresh": rng.choice([0, 1024, 2048, 4096, 65535]), "rtt0": rng.choice([den // 2, 3 * den // 4, den, den // 4]),
             "den": den, "size": 0, "gaps": gaps, "chunks": chunks, "ev": ev, "src": "random-app"}
@@ -80,7 +82,7 @@ def random_history(ctx):
     else:
         cwnd = rng.choice([512, 512, 1024, 1536, 2048, 4096, 700, 5000, 8192])
         ssth = rng.choice([0, 512, 1024, 1024, 2048, 3000, 4096, 8192, 20000, 65535])
-    style = rng.choice(["mixed", "mixed", "acks", "loss", "slow"])
+    style = rng.choice(["mixed", "mixed", "acks", "loss", "slow", "blackout"])
     ev = []
     if cubic:
         # TCPCubic starts in slow start below 65535: get it into congestion avoidance through a loss first
@@ -103,10 +105,15 @@ def random_history(ctx):
                        "rtt": rng.choice([-1, -1, 1, 2, den // 8, den // 2, den, den + 3, 3 * den]),
                        "late": rng.choice([0, 0, 1])})
         elif r < (0.8 if style == "acks" else 0.85 if style == "loss" else 0.75):
+            idle = rng.choice([0, 1])
             for _ in range(rng.choice([1, 1, 2, 2, 3, 3, 4, 5, 7])):
-                ev.append({"op": "D", "dt": rng.choice([0, 0, 0, 1]), "late": rng.choice([0, 0, 1])})
+                ev.append({"op": "D", "dt": rng.choice([0, 0, 0, 1]), "late": rng.choice([0, 0, 1]), "idle": idle})
         else:
             ev.append({"op": "W", "dt": rng.choice([den, 2 * den, 3 * den, 5 * den, 9 * den, 20 * den])})
+    if style == "blackout" and not cubic:
+        # nothing comes back for a long time: the timer backs off again and again (2, 4, 8, 16, 32, 64 s ...)
+        k = rng.randint(0, len(ev))
+        ev[k:k] = [{"op": "W", "dt": rng.choice([10, 20, 20, 40]) * den} for _ in range(rng.randint(3, 7))]
     size = rng.choice([0, 0, 0, 3, 5, 8, 20]) * MSS
     if size and rng.random() < 0.3:
         size += rng.choice([1, 100, 511])
@@ -139,12 +146,16 @@ def classify(ctx, sc, tr):
                     kinds.add("estimator_beyond_exact_fixed_point")
             elif e["dup"] == 3:
                 kinds.add("third_duplicate")
+                if pre["la"] >= pre["ns"]:
+                    kinds.add("third_duplicate_with_nothing_outstanding")
                 if sc.get("gaps") and pre["ns"] >= pre["buf"]:
                     kinds.add("third_duplicate_while_waiting_for_application_data")
             elif e["dup"] > 3:
                 kinds.add("further_duplicate")
         elif e["e"] == "T":
             kinds.add("timeout")
+            if pre["rto"] > 30 * (1 << 20):
+                kinds.add("timeout_backing_off_beyond_60s")
             if sc.get("gaps") and pre["ns"] >= pre["buf"]:
                 kinds.add("timeout_while_waiting_for_application_data")
             if pre["dup"] >= 3:
@@ -156,6 +167,8 @@ def classify(ctx, sc, tr):
                 kinds.add("send_right_after_application_data")
             if e["ns"] + MSS - e["la"] == e["cwnd"] // 1024 and e["cx"]:
                 kinds.add("send_fills_window_exactly")
+        if e["e"] == "A" and e["ackno"] == pre["la"] and pre["la"] >= pre["ns"]:
+            kinds.add("duplicate_with_nothing_outstanding")
         if sc.get("gaps") and e["buf"] > pre["buf"] and e["e"] != "S":
             kinds.add("application_data_meets_closed_window")
         if e["e"] == "Q":
